@@ -95,8 +95,13 @@ pub trait Round: Copy {
     /// assuming |fract| / X^precision < 1. Return the adjustment.
     #[inline]
     fn round_fract<const B: Word>(integer: &IBig, fract: IBig, precision: usize) -> Rounding {
-        // this assertion is costly, so only check in debug mode
-        debug_assert!(fract.clone().unsigned_abs() < UBig::from_word(B).pow(precision));
+        // this assertion is costly, so only check in debug mode. The power is formed only when the
+        // bit length of fract does not show |fract| < 2^(precision * floor(log2 B)) <= B^precision;
+        // it is then at most twice as long as fract (precision can be as large as usize::MAX)
+        debug_assert!(
+            fract.bit_len() <= precision.saturating_mul(B.bit_len() - 1)
+                || fract.clone().unsigned_abs() < UBig::from_word(B).pow(precision)
+        );
 
         if fract.is_zero() {
             return Rounding::NoOp;
